@@ -37,6 +37,7 @@ class _State:
         self.mode = "R"
         self.fexact = False          # Mode F: exact mul/div/sqrt instead of relaxed constants
         self.fork_where = False      # fork np.where conditions (always on in Mode F)
+        self.box_scalars = False     # scalar(<python number>) gives a 0-d SymArray (for in-place accumulators)
         self.explorer = None
         self.side = []               # side constraints used on the current path (z3 Bool)
         self._side_ids = set()
